@@ -445,14 +445,19 @@ func (c *Ctx) Run(tier string) {
 		rep.Exhaustive = false
 		rep.Note("the random-source overlay could not be applied to cmd/gmars/main.go; random placement was not explored")
 	} else {
-		rgeos := []geo{{4, 1}, {7, 2}, {7, 1}, {10, 1}} // the first two: core size exactly 3*length+1 (a single legal placement)
+		rgeos := []geo{{4, 1}, {7, 2}, {7, 1}, {10, 1}, {10, 2}, {12, 2}} // the first two: core size exactly 3*length+1 (a single legal placement)
 		maxR := 2
 		if thorough {
 			maxR = 3
 		}
 		for _, gm := range rgeos {
 			n := (gm.s - gm.l - 1) - 2*gm.l + 1
-			for _, pr := range [][2]int{{0, 1}, {1, 0}, {0, 0}, {6, 1}, {0, 6}} {
+			prs := [][2]int{{0, 1}, {1, 0}, {0, 0}, {6, 1}, {0, 6}}
+			if gm.l >= 2 {
+				// pairs whose outcome depends on the placement (rounds then differ from each other)
+				prs = [][2]int{{3, 9}, {9, 4}, {4, 3}, {2, 9}, {7, 3}}
+			}
+			for _, pr := range prs {
 				if n < 1 {
 					continue
 				}
@@ -477,7 +482,7 @@ func (c *Ctx) Run(tier string) {
 				}
 			}
 		}
-		rep.Bound += fmt.Sprintf("; random placement: (-s,-l) in {(4,1),(7,2),(7,1),(10,1)}, 5 pairs, rounds 1..%d with every answer sequence of the random source forced through a build overlay", maxR)
+		rep.Bound += fmt.Sprintf("; random placement: (-s,-l) in {(4,1),(7,2),(7,1),(10,1),(10,2),(12,2)}, 5 pairs each (for -l 2 pairs whose outcome depends on the placement), rounds 1..%d with every answer sequence of the random source forced through a build overlay", maxR)
 	}
 	rep.Sample("gmars -s 13 -p 8 -c 40 -l 4 -8 -F 9 dwarf.red clear.red")
 }
